@@ -1136,6 +1136,11 @@ fn family_parse(out: &mut Vec<Case>) {
         pc("paths", vec![(&format!("d/{}/t", s), "<import src=\"./o\"/><include src=\"../q\"/><template is=\"k\"/>".to_string()), (&format!("d/{}/o", s), "<template name=\"k\">k</template>".to_string())], vec![(&format!("lib/{}", s), "exports.a = 1")], out);
         pc("names", vec![("p/n", format!("<view {e}=\"1\" data-{e}=\"2\" mark:{e}=\"3\" bind:{e}=\"h\" data:{e}=\"{{{{ a }}}}\" {e}=\"{{{{ b }}}}\" model:{e}=\"{{{{ c }}}}\" change:{e}=\"{{{{ d }}}}\" class:{e}=\"{{{{ f }}}}\" style:{e}=\"{{{{ g }}}}\" slot:{e} generic:{e}=\"x\" worklet:{e}=\"w\"/><{e}/><slot {e}=\"{{{{ a }}}}\"/>", e = s))], vec![], out);
     }
+    // legal but unusual names (what the tag parser accepts as a name: letters, digits, `-`, `_`, `.`, `:` ...) in every name position,
+    // each position in its own element so that one rejected attribute does not hide the others
+    for e in ["a-b", "a.b", "a_b", "a--b", "a-", "a.", "a-b.c", "1a", "a1", "if", "new", "class", "default", "in", "do", "var", "null", "true", "constructor", "__proto__", "\u{3b1}", "a\u{1F600}", "A", "aB", "a$b", "$"] {
+        pc("names", vec![("p/n", format!("<view {e}=\"1\"/><view data-{e}=\"2\"/><view mark:{e}=\"3\"/><view bind:{e}=\"h\" catch:{e}=\"h\" capture-bind:{e}=\"h\" mut-bind:{e}=\"h\"/><comp data:{e}=\"{{{{ a }}}}\"/><comp {e}=\"{{{{ b }}}}\"/><comp model:{e}=\"{{{{ c }}}}\"/><comp change:{e}=\"{{{{ d }}}}\"/><view class:{e}=\"{{{{ f }}}}\"/><view style:{e}=\"{{{{ g }}}}\"/><comp><view slot:{e}>{{{{ {i} }}}}</view></comp><comp generic:{e}=\"x\" generic:z=\"{e}\"/><comp worklet:{e}=\"w\"/><{e}/><slot {e}=\"{{{{ a }}}}\"/><slot name=\"{e}\"/><template name=\"{e}\">t</template><template is=\"{e}\"/><view slot=\"{e}\"/><view wx:for=\"{{{{ l }}}}\" wx:for-item=\"{e}\" wx:for-index=\"i{e}\" wx:key=\"{e}\"/>", e = e, i = if e.chars().all(|c| c.is_ascii_alphanumeric()) && !e.starts_with(|c: char| c.is_ascii_digit()) { e } else { "q" }))], vec![], out);
+    }
     for s in ODD_STRINGS.iter().chain(["m", "$", "_", "new", "let", "static", "eval", "arguments", "if", "in", "do", "m#n", "a.b", "a-b", "1a", "", " m "].iter()) {
         let esc = s.replace('&', "&amp;").replace('<', "&lt;").replace('"', "&quot;");
         pc("wxs", vec![("p/x", format!("<wxs module=\"{}\" src=\"./lib\"/><view>{{{{ a }}}}</view>", esc))], vec![("p/lib", "exports.a = 1")], out);
